@@ -257,8 +257,9 @@ pub fn run(tier: &str) -> i32 {
         "process-crash image = the files as the OS sees them while the database is still open (default persist mode flushes every commit to the OS)".into(),
         "tails of arbitrary garbage are not enumerated (the property speaks of a journal that ends, with or without zero padding); single-byte damage is C15's".into(),
     ];
-    if timed_out {
-        o.machinery_errors.push(format!("time cap hit after {done}/{} cuts", jobs.len()));
+    let required = jobs.iter().filter(|j| j.shape < 8).count();
+    if timed_out && done < required {
+        o.machinery_errors.push(format!("time cap hit after {done}/{} cuts, before the required core ({required}: the first 8 shapes) finished", jobs.len()));
     }
     if outcomes.lock().unwrap().len() < 2 {
         o.machinery_errors.push("vacuous: fewer than 2 distinct outcomes".into());
